@@ -86,6 +86,12 @@ class State:
     def oblige(self, goal, note, lineno=0, kind='safety'):
         if goal == smt.TRUE:
             return
+        if goal.startswith('(and '):
+            parts = smt.split_top(goal[5:-1])
+            if len(parts) > 1 and sum(len(x) for x in parts) + len(parts) + 5 == len(goal):
+                for k, part in enumerate(parts):
+                    self.obligations.append(Obligation(part, list(self.pc), '%s [conjunct %d]' % (note, k), lineno, kind))
+                return
         self.obligations.append(Obligation(goal, list(self.pc), note, lineno, kind))
 
     def decide(self, n, label=''):
